@@ -48,3 +48,69 @@ func main() {
 		}
 	}
 }
+
+func init() {
+	if len(os.Args) > 1 && os.Args[1] == "-succ" {
+		// development aid: print the label graph (label -> goto targets) of each unit after normalisation, as table rows
+		for _, f := range os.Args[2:] {
+			b, err := os.ReadFile(f)
+			if err != nil {
+				continue
+			}
+			sp, err := specmatch.ParseSpec(string(b))
+			if err != nil {
+				fmt.Println(f, "ERROR", err)
+				continue
+			}
+			for _, u := range sp.Units {
+				secs, err := sp.Sections(u)
+				if err != nil {
+					continue
+				}
+				for _, s := range secs {
+					set := map[string]bool{}
+					var walk func(ss []specmatch.Stmt)
+					walk = func(ss []specmatch.Stmt) {
+						for _, st := range ss {
+							switch x := st.(type) {
+							case *specmatch.Goto:
+								set[x.Target] = true
+							case *specmatch.If:
+								walk(x.Then)
+								walk(x.Else)
+							case *specmatch.Either:
+								for _, c := range x.Cases {
+									walk(c)
+								}
+							case *specmatch.While:
+								walk(x.Body)
+							case *specmatch.With:
+								walk(x.Body)
+							case *specmatch.Labeled:
+								walk(x.Body)
+							}
+						}
+					}
+					walk(s.Body)
+					var ts []string
+					for t := range set {
+						ts = append(ts, t)
+					}
+					sortStrings(ts)
+					fmt.Printf("%s\t%s\t%s\t%v\n", sp.Name, u.Name, s.Label, ts)
+				}
+			}
+		}
+		os.Exit(0)
+	}
+}
+
+func sortStrings(a []string) {
+	for i := range a {
+		for j := i + 1; j < len(a); j++ {
+			if a[j] < a[i] {
+				a[i], a[j] = a[j], a[i]
+			}
+		}
+	}
+}
